@@ -131,9 +131,13 @@ impl<const MARKER: char, const TOKENIZE: bool> InlineRule for CodePairScanner<MA
                         state.pos = pos;
                         state.pos_max = match_start;
                         drop(backticks);
+                        // look-ahead results cached for the enclosing range may end beyond
+                        // the narrower range tokenized here
+                        let cache = std::mem::take(&mut state.cache);
                         state.level += 1;
                         state.md.inline.tokenize(state);
                         state.level -= 1;
+                        state.cache = cache;
                         state.pos_max = max;
 
                         let node = std::mem::replace(&mut state.node, old_node);
